@@ -27,3 +27,9 @@ impl num_bigint::BigInt {
 // exec `assert!(c)` (rule R9): not panicking is an obligation
 #[verifier::external_body]
 pub fn verif_assert(c: bool) requires c { }
+impl num_bigint::BigInt {
+    #[verifier::external_body]
+    pub fn from_bytes_be(sign: Sign, b: &[u8]) -> (r: num_bigint::BigInt)
+        ensures sign is Plus ==> bi(r) == be_unsigned(b@), sign is Minus ==> bi(r) == -be_unsigned(b@), sign is NoSign ==> bi(r) == 0
+    { unimplemented!() }
+}
